@@ -183,3 +183,24 @@ def describe(tier):
             "small-scope hypothesis over parameter kinds: <= 3 (thorough 4) parameters, 16 type shapes",
         ],
     )
+
+
+def standalone(case):
+    """plain script replaying one (interface, configuration) without the explorer"""
+    if "cfg" not in case:
+        return None
+    cfg = case["cfg"]
+    return (
+        "from collections import OrderedDict\nimport cdd.docstring.emit, cdd.docstring.parse\n"
+        "ir = {{'name': None, 'type': 'static', 'doc': {doc!r},\n      'params': OrderedDict({params!r}),\n      'returns': {ret}}}\n"
+        "text = cdd.docstring.emit.docstring(ir, docstring_format={style!r}, emit_default_doc={edd!r}, emit_types={et!r}, word_wrap={ww!r})\n"
+        "print(text)\nback = cdd.docstring.parse.docstring(text, emit_default_doc={edd!r})\n"
+        "print(dict(back['params']), back['returns'])\n"
+    ).format(doc=case["ir"]["doc"], params=[(n, OrderedDictRepr(p)) for n, p in case["ir"]["params"]],
+             ret="None" if case["ir"]["returns"] is None else "OrderedDict((('return_type', %r),))" % (case["ir"]["returns"],),
+             style=cfg["style"], edd=cfg["emit_default_doc"], et=cfg["emit_types"], ww=cfg["word_wrap"])
+
+
+class OrderedDictRepr(dict):
+    def __repr__(self):
+        return dict.__repr__(self)
